@@ -13,12 +13,28 @@ ID = 'C20'
 MODULE = 'XrlL4.Props.C20'
 NAMESPACE = 'XrlL4.C20'
 PROPS = os.path.join(l4.L4_DIR, 'XrlL4', 'Props', 'C20.lean')
-# families each binding is claimed (by the theorems) to publish; the check fails if the files start publishing another one
-CLAIMED = dict(fortran=6, pascal=6, java=6, idl=6, cython=4)
+TOOLS = os.path.join(VERIF, 'tools')
 # which theorem speaks about which kind of difference (used to explain a failed build)
 THEOREM_OF = dict(constant='constants_agree_%s', family='families_complete_%s', prototype='prototypes_agree_%s',
                   reference='prototypes_agree_%s', export='declared_is_exported', version='versions_agree', duplicate='constants_agree_%s',
-                  **{'idl-common': 'idl_common_exact', 'binding-body': 'cython_bodies_bind_same_name'})
+                  struct='struct_layouts_agree_%s', **{'idl-common': 'idl_common_exact', 'binding-body': 'cython_bodies_bind_same_name',
+                     'wrapper-binding': '%s_wrappers_bind_same_name', 'public-signature': 'pascal_public_signatures_agree', 'iface-impl': 'pascal_iface_matches_impl',
+                     'idl-routine': 'idl_routines_agree', 'idl-sources': 'idl_sources_same', 'build-sources': 'library_sources_agree',
+                     'libtool-version': 'libtool_versions_agree', 'swig-includeall': 'swig_reaches_all_headers'})
+
+
+def repo_sources(ctx):
+    """the C sources of the shared library as src/meson.build defines it (the generated table file is built by build_prdata)"""
+    sys.path.insert(0, TOOLS)
+    import extract_bindings as X
+    from l4common import TieError
+    try:
+        bdef = X.library_build_definition(REPO)
+    except TieError as e:
+        raise BuildError('the library\'s build definition could not be read: %s' % e)
+    missing = [f for f in bdef['meson'] if f not in bdef['generated'] and not os.path.exists(os.path.join(REPO, 'src', f))]
+    if missing: raise BuildError('src/meson.build lists sources that do not exist: %s' % missing)
+    return bdef
 
 
 def build_exports(ctx):
@@ -30,8 +46,13 @@ def build_exports(ctx):
     # compilers of this image (gcc is what meson uses by default, clang what the other checks use) and a function counts as exported
     # only when both builds export it
     per = {}
+    bdef = repo_sources(ctx)
+    srcs = [f for f in bdef['meson'] if f not in bdef['generated']]
+    if bdef['generated'] != ['xrayglob_inline.c']: raise BuildError('src/meson.build: generated sources of libxrl are %s, this check generates xrayglob_inline.c' % bdef['generated'])
+    if sorted(srcs) != sorted(cbuild.LIBXRL):
+        ctx.source_list_differs = sorted(set(srcs) ^ set(cbuild.LIBXRL))
     for cc, tag in (('gcc', 'picgcc'), ('clang-14', 'pic')):
-        objs, fl = cbuild.build_lib(ctx.sc, REPO, san=None, opt='-O0', extra=['-fPIC', '-fvisibility=hidden'], tag=tag, cc=cc)
+        objs, fl = cbuild.build_lib(ctx.sc, REPO, san=None, opt='-O0', extra=['-fPIC', '-fvisibility=hidden'], tag=tag, cc=cc, srcs=srcs)
         so = ctx.sc.path('libxrl_%s.so' % tag)
         cbuild.run([cc, '-shared', '-o', so] + objs + ['-lm'])
         out = cbuild.run(['nm', '-D', '--defined-only', so]).stdout
@@ -40,6 +61,7 @@ def build_exports(ctx):
     ctx.notes.append('exported symbols: gcc %d, clang %d, both %d%s' % (len(per['gcc']), len(per['clang-14']), len(syms),
                      '' if per['gcc'] == per['clang-14'] else '; only one compiler exports: %s' % sorted(per['gcc'] ^ per['clang-14'])[:8]))
     path = ctx.sc.path('exported.txt'); open(path, 'w').write('\n'.join(syms) + '\n')
+    open(ctx.sc.path('built_sources.txt'), 'w').write('\n'.join(sorted(srcs + bdef['generated'])) + '\n')
     ctx.tick('c_build', t)
     return path, len(syms)
 
@@ -52,7 +74,7 @@ def _run(ctx, replay):
     problems = []; tie = []; proof_broken = []; proof_log = ''
     exported, n_exp = build_exports(ctx)
     with l4.Lock():
-        rc, err = l4.run_tool(ctx, 'gen_c20.py', [ctx.sc.path('b'), l4.GEN_DIR, ctx.aux, exported], 'extract')
+        rc, err = l4.run_tool(ctx, 'gen_c20.py', [ctx.sc.path('b'), l4.GEN_DIR, ctx.aux, exported, ctx.sc.path('built_sources.txt')], 'extract')
         tie_info = None
         if rc == 3:
             tie_info = json.load(open(os.path.join(ctx.aux, 'c20_tie.json')))
@@ -69,9 +91,8 @@ def _run(ctx, replay):
     js = None
     if rc != 3:
         js = json.load(open(os.path.join(ctx.aux, 'c20.json')))
-        for b, n in CLAIMED.items():
-            if len(js['publishes'][b]) != n:
-                tie.append('binding %s now publishes the families %s; families_complete_%s claims %d families — the statement in Props/C20.lean must follow' % (b, js['publishes'][b], b, n))
+        if getattr(ctx, 'source_list_differs', None):
+            tie.append('src/meson.build builds libxrl from a different source list than vlib/cbuild.py LIBXRL (which every other check links): %s' % ctx.source_list_differs)
     diffs = js['diffs'] if js else []
     if replay:
         want = {l.split(' ', 1)[1].strip() for l in open(replay) if l.startswith('entry ')}
@@ -91,6 +112,9 @@ def _run(ctx, replay):
         for d in new[:200]:
             tk = THEOREM_OF.get(d['kind'], '(no theorem indexed for kind %s)' % d['kind'])
             th = tk % d['binding'] if '%s' in tk else tk
+            if d['kind'] == 'struct' and d['binding'] == 'cython': th = 'struct_members_agree_cython'
+            short = {t.rsplit('.', 1)[-1] for t in theorems}
+            if th not in short and th + '_partial' in short: th += '_partial'
             body += '# %s:%s  %s\n#   found:    %s\n#   expected: %s\n#   theorem:  %s\nentry %s\n' % (d['file'], d['line'], d['what'], d['found'], d['expected'], th, d['key'])
         if broken:
             body += '\n# broken obligations: %s\n' % json.dumps(dict(proof=proof_broken, tie=tie, other=problems))[:3000]
@@ -125,24 +149,40 @@ def _run(ctx, replay):
         compared += len(js['swig']['refs']) + len(js['cpp']['refs']) + len(js['versions']) + len(js['c']['public_functions'])
         nontriv += len(js['swig']['refs']) + len({r['text'] for r in js['cpp']['refs']}) + len(js['versions']) + len(js['c']['public_functions'])
         samples += [dict(version_statement=v) for v in js['versions'][:3]]
+        # the clause-audit tables: wrapper↔symbol pairs, public Pascal declarations, iface/impl pairs, IDL routines (two sets), records,
+        # library sources (two build definitions + this build), libtool statements, SWIG invocations
+        extra = (sum(cnt.get('calls_' + k, 0) for k in ('fortran', 'pascal', 'idl')) + cnt.get('pascal_public', 0) + cnt.get('pascal_iface', 0) + cnt.get('idl_dlm', 0) + cnt.get('idl_sysfun', 0)
+                 + sum(cnt.get('struct_' + k, 0) for k in ('fortran', 'pascal', 'cython')) + 3 * cnt.get('lib_sources', 0) + cnt.get('libtool', 0) + cnt.get('swig_invocations', 0))
+        compared += extra; nontriv += extra
+        for k in ('fortran', 'pascal', 'cython'):
+            for st in js['structs'][k][:1]: samples.append(dict(record=st['name'], file=st['file'], line=st['line'], c_struct=st['cname'], fields=st['fields']))
+        e = js['idl_routines']['dlm'][ctx.rng.randrange(len(js['idl_routines']['dlm']))]
+        samples.append(dict(idl_routine=e['text'], file=e['file'], line=e['line'], c_prototype=js['c']['prototypes'].get(e['name'], {}).get('text')))
     cov = dict(obligations=max(len(theorems), 1), discharged=n_dis,
                checker_cmd='cd lean-l4 && lake build %s   (tables: tools/gen_c20.py; then `#print axioms` on each theorem)' % MODULE,
                trusted_base=l4.TRUSTED_BASE,
                theorems=[dict(name=t, axioms=axioms.get(t)) for t in theorems],
                traces_validated_against_impl=(cnt.get('c_constants', 0) + cnt.get('c_prototypes', 0)) if js else 0,
                evaluations=compared, distinct_nontrivial=nontriv, exhaustive=True,
-               rule='every constant / foreign declaration / hand-written reference / version statement found by the extractors in the binding interface files is compared with the C headers '
+               rule='every constant / foreign declaration / wrapper↔symbol pair / IDL routine / record type / hand-written reference / version and libtool statement / library source / SWIG invocation found by the extractors in the binding interface and build files is compared with the C headers (or, for build files, with each other) '
                     '(no sampling; the seed only selects the samples shown here); non-trivial = the binding entry carries a C name (a comparison really takes place), distinct by (set, C name). '
                     'traces_validated_against_impl = C constants whose value the compiled program printed identically + C prototypes the compiler accepted',
                samples=samples, counts=cnt, exported_symbols=n_exp,
                differences=[dict(key=d['key'], what=d['what'], known=bool(d.get('known'))) for d in diffs][:100],
                known_findings_reproduced=len(known), new_violations=len(new),
                broken=dict(proof=proof_broken, tie=tie, other=problems),
-               idl_common=js['idl'] if js else None, java_loaded_at_runtime=js['java_dynamic'] if js else None)
+               idl_common=js['idl'] if js else None, java_loaded_at_runtime=js['java_dynamic'] if js else None,
+               wrappers=js['wrappers'] if js else None, idl_glue_defined_but_not_registered=js['idl_routines']['defined_not_registered'] if js else None,
+               library_build=dict(meson=len(js['build']['meson']), automake=len(js['build']['automake']), built=js['build']['built'], facts=js['build']['facts']) if js else None,
+               libtool=js['libtool'] if js else None, swig_invocations=js['swig_invocations'] if js else None)
     core.write_evidence(ctx, 'proof', cov, len(new) + (1 if broken and not new else 0),
                         ['the bindings\' run-time behaviour (Fortran/Pascal/Python/Java/IDL compilers, SWIG) is not modelled: declarations are compared, not executed',
                          'Java constants without initialiser (RE2, MEC2, AVOGNUM, KEV2ANGST, R_E, ZMAX, …) are read at class-load time from the data file written by java/pr_data_java.c, which prints the C macros themselves; they are outside the tables',
-                         'Fortran real literals are compared as exact decimals (the default-kind rounding of an unsuffixed literal is not modelled)'])
+                         'Fortran real literals are compared as exact decimals (the default-kind rounding of an unsuffixed literal is not modelled)',
+                         'record layouts are compared as field sequences under each language\'s type map (Fortran BIND(C) and Pascal {$PACKRECORDS C} are taken to lay out equal sequences equally); '
+                         'a Pascal `array of T` field and `PAnsiChar` count as pointers, a Pascal enumeration as int',
+                         'windows/dotNetSrc (the separately maintained .NET wrapper) is outside the binding interfaces the property lists: neither its constants nor its assembly version are read',
+                         'IDL structure tags built in idl/xraylib_idl.c (IDL_STRUCT_TAG_DEF) are not compared with the C structs'])
     log('%s %s: exit %d  (%.1fs; theorems %d/%d; %d entries compared, %d known findings, %d new)' % (ID, ctx.tier, exit_code, time.time() - ctx.t0, n_dis, len(theorems), compared, len(known), len(new)))
     return exit_code
 
